@@ -443,6 +443,7 @@ class Interp:
         self.unknown = []
         self.touched = False
         self.taints = {}
+        self.inline_accessors = False
         self.opaque_conds = []
         self.taint_all = None
         self.opaque_fills = set()
@@ -2152,7 +2153,86 @@ def poly(it, e, depth=0):
                 m = tuple(sorted(m1 + m2))
                 out[m] = out.get(m, 0) + c1 * c2
         return {m: c for m, c in out.items() if c}
+    if it.inline_accessors and k == "MCall" and not e.get("a") and depth < 10:
+        ob = e.get("obj")
+        ob0 = unwrap(ob) if ob is not None else None
+        while ob0 is not None and ob0.get("k") == "Cast" and ob0.get("e") is not None:
+            ob0 = unwrap(ob0["e"])
+        if ob0 is None or ob0.get("k") == "This":
+            callee = it.fam.callee_fn(it.fn, e)
+            rx = single_return_expr(callee) if callee is not None and short(callee.cls) in it.fam.classes else None
+            if rx is not None:
+                it2 = Interp(it.fam, callee)
+                it2.inline_accessors = True
+                _ALIAS.clear()
+                _ALIAS.update(it.aliases)
+                return poly(it2, rx, depth + 1)
+    if k == "MCall" and e.get("n") in ("at", "operator[]") and e.get("a") and unwrap(e["a"][0]).get("k") == "Int" and e.get("obj") is not None \
+            and unwrap(e["obj"]).get("k") == "Member" and SCAL_RE.search(unwrap(e["obj"]).get("qn", "")) and obj_id(unwrap(e["obj"]).get("b")) == "this":
+        return {("slot%s" % unwrap(e["a"][0])["v"],): 1}
     return {(_norm_extent(it, e),): 1}
+
+
+def single_return_expr(fn):
+    """the expression a small accessor returns: `return E;`, possibly selected by `if constexpr`, possibly wrapped in
+    `if(cond) return E; else return 0;` (Container::size); None if the body is anything else"""
+    def rec(n):
+        if n is None:
+            return None
+        k = n.get("k")
+        if k == "Block":
+            ss = [x for x in n.get("s", []) if x.get("k") != "Null_"]
+            if len(ss) == 1:
+                return rec(ss[0])
+            if len(ss) == 2 and ss[0].get("k") == "If" and ss[0].get("else") is None and ss[1].get("k") == "Return":
+                a, b = rec(ss[0].get("then")), rec(ss[1])
+                return pick(a, b)
+            return None
+        if k == "Return":
+            return n.get("e")
+        if k == "If":
+            th, el = n.get("then"), n.get("else")
+            if n.get("constexpr"):
+                if th is not None and th.get("k") == "Null_":
+                    return rec(el)
+                if el is None or el.get("k") == "Null_":
+                    return rec(th)
+            return pick(rec(th), rec(el))
+        return None
+
+    def pick(a, b):
+        def zero(x):
+            x = unwrap(x) if x is not None else None
+            while x is not None and x.get("k") in ("Construct", "TempObj") and len(x.get("a", [])) == 1:
+                x = unwrap(x["a"][0])
+            return x is not None and x.get("k") == "Int" and x.get("v") == "0"
+        if a is not None and b is not None:
+            if zero(a) and not zero(b):
+                return b
+            if zero(b) and not zero(a):
+                return a
+        return None
+    if fn is None or fn.body is None or fn.params:
+        return None
+    return rec(fn.body)
+
+
+def psubst(p, atom, q):
+    """substitute polynomial q for the atom in p"""
+    out = {}
+    for m, c in p.items():
+        cur = {(): c}
+        for a in m:
+            factor = q if a == atom else {(a,): 1}
+            nxt = {}
+            for m1, c1 in cur.items():
+                for m2, c2 in factor.items():
+                    mm = tuple(sorted(m1 + m2))
+                    nxt[mm] = nxt.get(mm, 0) + c1 * c2
+            cur = nxt
+        for mm, cc in cur.items():
+            out[mm] = out.get(mm, 0) + cc
+    return {m: c for m, c in out.items() if c}
 
 
 def pmul(p, c):
@@ -2190,6 +2270,8 @@ def poly_verdict(p, q):
         return "eq"
     if all(not m for m in d):
         return "ne"
+    if {m for m in p if m} == {m for m in q if m}:
+        return "ne"          # the same size quantities with different coefficients
     atoms = set()
     for m in d:
         atoms.update(m)
